@@ -536,6 +536,23 @@ class GAM(Core, MetaTermMixin):
         else:
             diag = np.eye(A.shape[0])
 
+        try:
+            return cholesky(A, **kwargs)
+        except NotPositiveDefiniteError:
+            # A = S + P (+ C) is positive definite by construction, but with
+            # large penalties its smallest eigenvalues (the ridge S) drown in
+            # the rounding error of the factorization. factor A through its
+            # eigendecomposition instead, so that the model is not changed:
+            # eigenvalues below the rounding level are those of the ridge
+            Ad = A.toarray() if sp.sparse.issparse(A) else np.asarray(A)
+            w, V = np.linalg.eigh((Ad + Ad.T) / 2.0)
+            if np.isfinite(w).all() and w.max() > 0:
+                w[w < A.shape[0] * EPS * w.max()] = np.sqrt(EPS)
+                L = (V * np.sqrt(w)).T
+                if kwargs.get('sparse', True):
+                    return sp.sparse.csc_matrix(L)
+                return L
+
         constraint_l2 = self._constraint_l2
         while constraint_l2 <= self._constraint_l2_max:
             try:
